@@ -43,6 +43,9 @@ def check(model: Model, rep: Report, tier: str):
         share_rule(rep, model, x2, "C13.M1", rep.rules_text.get("C13.M1", ""))
     with rep.isolated():
         share_rule(rep, model, x3, "C13.M1", rep.rules_text.get("C13.M1", ""))
+    from .c05 import k10
+    with rep.isolated():
+        k10(model, rep, "C13.M5")
     with rep.isolated():
         share_rule(rep, model, x4, "C13.M4", "what the experiment kernel reports for a block of n rounds is read from THE kernel of that block (selected by its own round count, over the "
                                              "whole kernel list) and translated per experiment repetition by the cycle length (= C12.X4): a getter that answers with another block's "
